@@ -484,6 +484,12 @@ pub fn run(ctx: &RunCtx) -> i32 {
             // those overrides (and the output's own members) use
             let mut extra_headers = extra_headers;
             let mut overrides = Vec::new();
+            // GetObject: a backend that streams with Transfer-Encoding: chunked (s3s issue 80 special case), together
+            // with its other extra headers
+            if op == "GetObject" && one_hop && !extra_headers.is_empty() && g.chance(1, 3) {
+                let at = g.usize_below(extra_headers.len() + 1);
+                extra_headers.insert(at, ("transfer-encoding".to_owned(), "chunked".to_owned()));
+            }
             if op == "GetObject" && one_hop && i % 2 == 0 {
                 for (im, _, h) in OVERRIDES {
                     if g.chance(1, 2) {
